@@ -388,6 +388,7 @@ func (msg *Message) UnmarshalJSON(data []byte) error {
 		}
 
 		// decode protected header
+		nb64 := false // a signature without a protected header has no "b64" parameter
 		if protectedAny, ok := sigObject["protected"]; ok {
 			protectedString, ok := protectedAny.(string)
 			if !ok {
@@ -403,12 +404,14 @@ func (msg *Message) UnmarshalJSON(data []byte) error {
 			}
 			sig.rawProtected = []byte(protectedString)
 			sig.protected = protected
+			nb64 = protected.nb64
+		}
 
-			if i == 0 {
-				m.nb64 = protected.nb64
-			} else if m.nb64 != protected.nb64 {
-				return errors.New("jws: failed to parse protected header: b64 is mismatch")
-			}
+		// RFC 7797 Section 3: the "b64" value must be the same for all signatures.
+		if i == 0 {
+			m.nb64 = nb64
+		} else if m.nb64 != nb64 {
+			return errors.New("jws: failed to parse protected header: b64 is mismatch")
 		}
 
 		// decode unprotected header
